@@ -168,6 +168,10 @@ def cases(tier: str, seed: int) -> list[dict]:
         c["world"] = dict(c["world"], via=vias[k % len(vias)])
         if c["world"]["conv"] in ("cf1d", "cf2d") and k % 2 == 0 and c["world"]["via"] != "emsopen":
             c["world"]["bind"] = "explicit"      # convention made by hand with latitude= / longitude= (worlds.bind)
+        if c["world"]["conv"] != "ugrid" and k % 3 == 1 and not c["world"].get("vars"):
+            # the dataset's own dimension order is x before y: its first variable is stored (x, y)
+            c["world"]["vars"] = [{"name": "flag", "kind": "face", "dims": ["@1", "@0"], "dtype": "i4", "base": 1}]
+            c["world"]["first_var"] = "flag"
     return out
 
 
